@@ -1,8 +1,10 @@
 SPECIFICATION Spec
 CONSTANTS
-  Part = "shapes"
+  Part = "bool"
   BoolSize = "q"
   AndMerge = "fixed"
   MaxArms = 1
-INVARIANT StrinStrict
+INVARIANT BoolRefOK
+INVARIANT SwitchSound
+INVARIANT Publish
 CHECK_DEADLOCK FALSE
